@@ -99,8 +99,10 @@ class RollingReduction(Expr):
                     type(self)(self.frame[columns], *self.operands[1:]),
                     *parent.operands[1:],
                 )
-            if len(columns) == 1:
+            if len(columns) == 1 and not isinstance(parent.operand("columns"), list):
+                # ``rolling(...).how()["a"]``: a Series
                 columns = columns[0]
+            # ``[["a"]]`` must stay a one-column DataFrame
             return type(self)(self.frame[columns], *self.operands[1:])
 
     @property
